@@ -276,7 +276,12 @@ class Real:
         def ping(self):
             log.append(self.tag)
 
-        cls = type("PoolC%d" % c, (object,), {"__module__": self.MODULE, "__init__": __init__, "ping": ping})
+        members = {"__module__": self.MODULE, "__init__": __init__, "ping": ping}
+        if c == 1:
+            # instances of this pool class are FALSY (an empty container-like object): a registered object is
+            # reachable whatever its truth value
+            members["__bool__"] = lambda self: False
+        cls = type("PoolC%d" % c, (object,), members)
         return self.server.expose(cls)
 
     def close(self):
